@@ -70,7 +70,12 @@ RECSTART_M = {"<start>": ["(<start>)<start>", "<A>"], "<A>": ["x", ""]}
 
 QUOTED = {"<start>": ["<item>", "<item>,<start>"], "<item>": ["\"<var>\"", "(<var>)", "'<var>'"], "<var>": ["a", "b", "\\"]}
 
+# a nullable and a non-nullable nonterminal with an identical alternative; an expansion naming one nonterminal twice
+SHAREDALT = {"<start>": ["<decl>"], "<decl>": ["<ws><id><ows>=<ows><id>"], "<ws>": [" "], "<ows>": ["", " "], "<id>": ["a", "b"]}
+PAIRS = {"<start>": ["<pair>", "<pair>;<start>"], "<pair>": ["<entry>=<entry>"], "<entry>": ["<key>", "(<pair>)"], "<key>": ["a", "b"]}
+
 GRAMMARS = {
+    "SHAREDALT": SHAREDALT, "PAIRS": PAIRS,
     "ASSGN": ASSGN, "ASSGN2": ASSGN2, "XMLISH": XMLISH, "NUM": NUM, "NULLABLE": NULLABLE,
     "AMBIG": AMBIG, "LEFTREC": LEFTREC, "RIGHTREC": RIGHTREC, "MULTICHAR": MULTICHAR,
     "CSVISH": CSVISH, "TWOSTART": TWOSTART, "LENGTHS": LENGTHS,
